@@ -531,7 +531,21 @@ func ruleC11(c *Check, p *Prog) {
 				checkEquiv(c, p, sp.Rule, sp.Key, sp.Spec, sp.What)
 			}
 		}
+		// ... and what the poker test stands on: the tail function that turns its statistic into the P-value compared with
+		// Alpha (stateless Cephes recurrences: a memo keyed on (a, x) is a load/store the reference does not have) and the
+		// byte -> bit adapter of the m = 2 path (fresh MSB-first expansion, not a view of shared storage)
+		for _, sp := range c06Specs[:2] {
+			checkEquiv(c, p, "R-CHAIN-IGAMC", sp.Key, sp.Spec, sp.What)
+		}
+		checkBitAdapters(c, p)
 	}
+}
+
+// checkBitAdapters: B2bit / B2bitArr, through which every *TestBytes entry point and registry runner reaches the bit-level
+// test, are the reference MSB-first expansions into FRESH storage (no cache keyed on the buffer identity, no shared table).
+func checkBitAdapters(c *Check, p *Prog) {
+	checkEquiv(c, p, "R-MSB", "B2bit", eqSpec{Pkg: pkgRoot, Name: "B2bit", RefName: "B2bit", Dom: map[string]Domain{"param:0": {Lo: 0, Hi: 255}}}, "masks 0x80..0x01 in order")
+	checkEquiv(c, p, "R-MSB", "B2bitArr", eqSpec{Pkg: pkgRoot, Name: "B2bitArr", RefName: "B2bitArr", Inline: map[string]bool{pkgRoot + ".B2bitArr": true}}, "append B2bit(b) for every byte in order")
 }
 
 // ---- C12 ----
